@@ -39,6 +39,8 @@ type Global struct {
 	used     map[string]map[string]bool // unit key -> set of trusted contracts it relied on
 	allFns   map[*ssa.Function]bool
 	curInRepo bool
+	constGlobals map[*ssa.Global]*ssa.Const
+	nonNilGlobals map[*ssa.Global]bool
 }
 
 type writeSet struct {
@@ -78,6 +80,7 @@ func loadProgram(repo string, patterns []string) (*Global, error) {
 		tags: map[string]int{}, writes: map[*ssa.Function]*writeSet{}, keyInfos: map[string]*KeyInfo{}, files: map[string]*ast.File{},
 		used: map[string]map[string]bool{}, curInRepo: true}
 	g.allFns = ssautil.AllFunctions(prog)
+	g.findConstGlobals()
 	for fn := range g.allFns {
 		if fn.Pkg == nil {
 			continue
@@ -92,6 +95,55 @@ func loadProgram(repo string, patterns []string) (*Global, error) {
 		}
 	})
 	return g, nil
+}
+
+// findConstGlobals finds package-level variables that are only ever assigned a constant in init.
+func (g *Global) findConstGlobals() {
+	g.constGlobals = map[*ssa.Global]*ssa.Const{}
+	g.nonNilGlobals = map[*ssa.Global]bool{}
+	bad := map[*ssa.Global]bool{}
+	for fn := range g.allFns {
+		if fn.Pkg == nil {
+			continue
+		}
+		isInit := fn.Name() == "init" && fn.Parent() == nil
+		for _, b := range fn.Blocks {
+			for _, in := range b.Instrs {
+				if st, ok := in.(*ssa.Store); ok {
+					if gl, ok := st.Addr.(*ssa.Global); ok {
+						if c, isC := st.Val.(*ssa.Const); isC && isInit && g.constGlobals[gl] == nil && !g.nonNilGlobals[gl] {
+							g.constGlobals[gl] = c
+						} else if call, isCall := st.Val.(*ssa.Call); isCall && isInit && g.constGlobals[gl] == nil && !g.nonNilGlobals[gl] &&
+							call.Common().StaticCallee() != nil && (call.Common().StaticCallee().String() == "errors.New" || call.Common().StaticCallee().String() == "fmt.Errorf") {
+							g.nonNilGlobals[gl] = true
+						} else {
+							bad[gl] = true
+						}
+						continue
+					}
+				}
+				// any other use of a global's address except a plain load disqualifies it
+				for _, op := range in.Operands(nil) {
+					if op == nil || *op == nil {
+						continue
+					}
+					if gl, ok := (*op).(*ssa.Global); ok {
+						if u, isLoad := in.(*ssa.UnOp); isLoad && u.Op == token.MUL {
+							continue
+						}
+						if _, isDbg := in.(*ssa.DebugRef); isDbg {
+							continue
+						}
+						bad[gl] = true
+					}
+				}
+			}
+		}
+	}
+	for gl := range bad {
+		delete(g.constGlobals, gl)
+		delete(g.nonNilGlobals, gl)
+	}
 }
 
 func (g *Global) inRepo(p *types.Package) bool {
@@ -732,6 +784,9 @@ func (g *Global) modExprKeys(e Expr, fn *ssa.Function, u *Unit, ws *writeSet) bo
 	case ESel:
 		t := g.staticType(x.X, fn, u)
 		if t == nil {
+			t = g.typeByExpr(x.X, fn, u)
+		}
+		if t == nil {
 			return false
 		}
 		if p, ok := t.Underlying().(*types.Pointer); ok {
@@ -768,6 +823,33 @@ func (g *Global) modExprKeys(e Expr, fn *ssa.Function, u *Unit, ws *writeSet) bo
 		}
 	}
 	return false
+}
+
+// typeByExpr resolves  Type  or  pkg.Type  to a named type.
+func (g *Global) typeByExpr(e Expr, fn *ssa.Function, u *Unit) types.Type {
+	var from *types.Package
+	if fn != nil && fn.Pkg != nil {
+		from = fn.Pkg.Pkg
+	} else if u != nil {
+		from = g.pkgByPath(u.Pkg)
+	}
+	switch x := e.(type) {
+	case EIdent:
+		if from != nil {
+			if tn, ok := from.Scope().Lookup(x.Name).(*types.TypeName); ok {
+				return tn.Type()
+			}
+		}
+	case ESel:
+		if id, ok := x.X.(EIdent); ok {
+			if p := g.pkgByName(id.Name, from); p != nil {
+				if tn, ok := p.Scope().Lookup(x.Field).(*types.TypeName); ok {
+					return tn.Type()
+				}
+			}
+		}
+	}
+	return nil
 }
 
 // staticType computes the Go type of a (simple) contract expression over a function's parameters.
